@@ -29,3 +29,22 @@ def coerce_bool_dunders(module):
         except (AttributeError, TypeError):
             pass
     return n
+
+
+def untraced_constructor(cls):
+    """Run a third-party constructor outside CrossHair's tracer (engine workaround: llsd's formatter builds a
+    type-keyed dict literal that trips CrossHair's MAP_ADD interception with 'bad argument to internal function').
+    No effect on what the constructor computes; a no-op when CrossHair is not loaded (concrete replay)."""
+    import sys
+    orig = cls.__init__
+    if getattr(orig, "_verif_untraced", False):
+        return
+
+    def __init__(self, *a, **kw):
+        if "crosshair.tracers" in sys.modules:
+            from crosshair.tracers import NoTracing
+            with NoTracing():
+                return orig(self, *a, **kw)
+        return orig(self, *a, **kw)
+    __init__._verif_untraced = True
+    cls.__init__ = __init__
